@@ -58,11 +58,11 @@ type callReturn struct {
 	at   time.Time
 }
 
-func c12Case(t *rapid.T, sub string, w *stack.World, desc string, timing string, nRecv, nServe int, traffic bool, cbDelay time.Duration) {
+// baseline holds the library goroutines that existed before the case's swarms were built: whatever the swarms
+// start, at construction or later, has to be gone after Close.
+func c12Case(t *rapid.T, sub string, baseline map[string]string, w *stack.World, desc string, timing string, nRecv, nServe int, traffic bool, cbDelay time.Duration) {
 	fail := func(f string, a ...any) { t.Fatalf("%s\ncase: %s", fmt.Sprintf(f, a...), desc) }
 	victim, sender := w.Nodes[0], w.Nodes[1]
-	baseline := libGoroutines()
-	_ = baseline
 	var mu sync.Mutex
 	var returns []callReturn
 	var lastCallbackStart atomic.Int64
@@ -291,12 +291,19 @@ func TestC12Close(t *testing.T) {
 	ev.Rule(sub, "rapid: every stack spec (memory and UDP bases; fragmenting, message-box, multiplexer, multi-transport, address-mapped, whitelisted, P2PKE and QUIC layers to depth 3); "+c12Rule)
 	rapid.Check(t, func(t *rapid.T) {
 		spec := genSpec(t, specOpts{maxDepth: 3, bases: []string{"mem", "mem", "mem", "udp"}, honestFrag: true, errClose: true})
+		if rapid.IntRange(0, 4).Draw(t, "channelOnTop") == 0 {
+			// the swarm that is closed is one channel of a multiplexer: Close must not depend on the multiplexer's
+			// loop getting rid of a message that nobody is receiving
+			kind := rapid.SampledFrom(muxKinds).Draw(t, "muxKind")
+			spec = stack.Spec{Base: "mem", BaseMTU: 1500, QueueLen: rapid.SampledFrom([]int{4, 256}).Draw(t, "muxQueue"), Layers: []stack.Layer{{Kind: "mux", Mux: kind, Chan: genChan(t, kind)}}}
+		}
+		baseline := libGoroutines()
 		w, err := stack.Build(spec, 2, 0)
 		if err != nil {
 			t.Fatalf("%s", ev.Tag(fmt.Sprintf("harness: %v: %v", spec, err)))
 		}
 		timing := rapid.SampledFrom([]string{"immediately", "after-deliveries", "later", "concurrent", "twice"}).Draw(t, "timing")
-		c12Case(t, sub, w, spec.String(), timing, rapid.IntRange(0, 4).Draw(t, "receivers"), rapid.IntRange(0, 4).Draw(t, "servers"), rapid.Bool().Draw(t, "traffic"), time.Duration(rapid.SampledFrom([]int{0, 0, 1, 5}).Draw(t, "callbackMs"))*time.Millisecond)
+		c12Case(t, sub, baseline, w, spec.String(), timing, rapid.IntRange(0, 4).Draw(t, "receivers"), rapid.IntRange(0, 4).Draw(t, "servers"), rapid.Bool().Draw(t, "traffic"), time.Duration(rapid.SampledFrom([]int{0, 0, 1, 5}).Draw(t, "callbackMs"))*time.Millisecond)
 	})
 }
 
@@ -304,11 +311,12 @@ func TestC12CloseSSH(t *testing.T) {
 	const sub = "C12.close_ssh"
 	ev.Rule(sub, "rapid: stand-alone SSH swarms on TCP loopback; "+c12Rule)
 	rapid.Check(t, func(t *rapid.T) {
+		baseline := libGoroutines()
 		w, err := buildSSH(2)
 		if err != nil {
 			t.Fatalf("%s", ev.Tag(fmt.Sprintf("harness: %v", err)))
 		}
 		timing := rapid.SampledFrom([]string{"immediately", "after-deliveries", "later", "concurrent", "twice"}).Draw(t, "timing")
-		c12Case(t, sub, w, "ssh", timing, rapid.IntRange(0, 4).Draw(t, "receivers"), rapid.IntRange(0, 4).Draw(t, "servers"), rapid.Bool().Draw(t, "traffic"), time.Duration(rapid.SampledFrom([]int{0, 1}).Draw(t, "callbackMs"))*time.Millisecond)
+		c12Case(t, sub, baseline, w, "ssh", timing, rapid.IntRange(0, 4).Draw(t, "receivers"), rapid.IntRange(0, 4).Draw(t, "servers"), rapid.Bool().Draw(t, "traffic"), time.Duration(rapid.SampledFrom([]int{0, 1}).Draw(t, "callbackMs"))*time.Millisecond)
 	})
 }
